@@ -1,6 +1,7 @@
 SPECIFICATION Spec
 CONSTANT Depth = 3
 CONSTANT RcvMode = 0
+CONSTANT PeerRcv = 0
 CONSTANT SndMode = 0
 CONSTANT PeerH1 = 5
 CONSTANT PeerH3 = 8
